@@ -224,3 +224,29 @@ func buildCorpus(format, size string) [][]byte {
 	}
 	return b
 }
+
+// fileWalker obtains ONE iterator value from the format's File function; every call of the result is
+// one walk over it, stopped after horizon items.
+func fileWalker(format, path string) func(horizon int) ([]obsItem, string, bool) {
+	switch format {
+	case "fasta":
+		seq := fasta.File(path)
+		return func(h int) ([]obsItem, string, bool) { return collect2(seq, renderFasta, h) }
+	case "fastq":
+		seq := fastq.File(path)
+		return func(h int) ([]obsItem, string, bool) { return collect2(seq, renderFastq, h) }
+	case "sam":
+		seq := sam.File(path)
+		return func(h int) ([]obsItem, string, bool) { return collect2(seq, renderSAM, h) }
+	case "samh":
+		seq := sam.FileHeader(path)
+		return func(h int) ([]obsItem, string, bool) { return collect2(seq, renderSAMOrHeader, h) }
+	case "bed":
+		seq := bed.File(path)
+		return func(h int) ([]obsItem, string, bool) { return collect2(seq, renderBED, h) }
+	case "newick":
+		seq := newick.File(path)
+		return func(h int) ([]obsItem, string, bool) { return collect2(seq, renderNewick, h) }
+	}
+	panic("format " + format)
+}
